@@ -132,6 +132,19 @@ pub fn pool() -> Vec<Lab> {
         Lab::Str("abcdefgX".into()),
         Lab::Str("абвгдежи".into()),
         Lab::Str("𝜑𝜓𝜔𝛼𝛽𝛾𝛿𝜁".into()),
+        // each text is a proper prefix of the next (a comparison that stops at the shorter one, or
+        // at half of the array, confuses them)
+        Lab::Str("ab".into()),
+        Lab::Str("abc".into()),
+        Lab::Str("abcd".into()),
+        Lab::Str("abcde".into()),
+        Lab::Str("abcdef".into()),
+        Lab::Str("φ+α1".into()),
+        Lab::Str("φ+α1xy".into()),
+        // a single character next to the index that equals its code point
+        Lab::Alpha(120),
+        Lab::Alpha(966),
+        Lab::Greek('φ'),
     ];
     // enough distinct labels to fill a vertex with N = 16 and go one beyond
     for i in 0..10 {
